@@ -5,7 +5,8 @@ CONSTANTS
   ML = 0
   MaxRetries = 1
   Repaired = FALSE
-  FinishReturnsHeld = FALSE
+  Prefetch = 2
+  FinishMode = "local"
 INVARIANT Conservation
 INVARIANT RunningBound
 INVARIANT StartedBound
